@@ -8,7 +8,8 @@
    satisfies (C04_inv_fresh, C04_inv_step).  Only theorem statements live
    here. *)
 From Coq Require Import NArith List Bool.
-From VV Require Import Cache.CacheDefs Cache.CacheProofs.
+From VV Require Import Cache.CacheDefs Cache.CacheProofs Cache.TableTypes Cache.CacheGenDefs Gen.CacheTable
+  Cache.CacheGenDefs2 Cache.CacheGen.
 Import ListNotations.
 Local Open Scope N_scope.
 
@@ -102,6 +103,41 @@ Theorem C04_proxy_transparent :
 Proof. exact proxy_transparent. Qed.
 Print Assumptions C04_proxy_transparent.
 
+(* the proxy with its serialisation: histories that also contain "save, then a
+   NEW proxy loads" (evaluator_proxy::save/load, i.e. search::close and the
+   next session's search::init) stay transparent and every load succeeds.
+   Extra hypotheses, explicit: evaluated individuals have a non-empty
+   signature; the wrapped evaluator reads back what it wrote. *)
+Theorem C04_proxy_sessions_transparent :
+  forall (ind data : Type) (sig : ind -> key) (eva : data -> ind -> fitness) (P : ind -> Prop)
+         (eva_toks : list tok) (eva_load : list tok -> option (list tok)),
+  (forall x y, P x -> P y -> sig x = sig y -> forall d, eva d x = eva d y) ->
+  (forall x, P x -> sig x <> key0) ->
+  (forall r, eva_load (eva_toks ++ r) = Some r) ->
+  forall bits d evs, qwf ind data P false evs ->
+  qrun ind data sig eva eva_toks eva_load (mkp data (fresh bits) d) evs = (qdirect ind data eva d evs, true).
+Proof. exact proxy_sessions_transparent. Qed.
+Print Assumptions C04_proxy_sessions_transparent.
+
+(* the histories evolution::run produces -- first evaluation, then per
+   generation: if the validation strategy shakes (data change + clear of the
+   cached evaluators) the best individual is RE-EVALUATED, then the offspring
+   are evaluated; closed by save/load -- are of that kind: along a whole run
+   the proxy answers like the wrapped evaluator, the refreshed fitness of the
+   best individual included *)
+Theorem C04_evolution_run_transparent :
+  forall (ind data : Type) (sig : ind -> key) (eva : data -> ind -> fitness) (P : ind -> Prop)
+         (eva_toks : list tok) (eva_load : list tok -> option (list tok)),
+  (forall x y, P x -> P y -> sig x = sig y -> forall d, eva d x = eva d y) ->
+  (forall x, P x -> sig x <> key0) ->
+  (forall r, eva_load (eva_toks ++ r) = Some r) ->
+  forall bits d first gens,
+  P first -> Forall (fun g => P (snd (fst g)) /\ Forall P (snd g)) gens ->
+  qrun ind data sig eva eva_toks eva_load (mkp data (fresh bits) d) (evolution_run ind data first gens) =
+    (qdirect ind data eva d (evolution_run ind data first gens), true).
+Proof. exact evolution_run_transparent. Qed.
+Print Assumptions C04_evolution_run_transparent.
+
 (* an empty fitness is never a hit: the wrapped evaluator is called again *)
 Theorem C04_proxy_empty_recomputed : forall t sg now,
   snd (fst (proxy_eval (insert t sg []) sg now)) = true /\
@@ -111,6 +147,58 @@ Proof.
   unfold proxy_eval. rewrite find_after_insert. reflexivity.
 Qed.
 Print Assumptions C04_proxy_empty_recomputed.
+
+(* ------------------------------------------------------------------------
+   The same statements about the model of the code AS IT IS NOW: [now_find],
+   [now_run], ... interpret Gen/CacheTable.v, the table-level facts
+   REGENERATED from cache.cc / cache_hash.h on every run (hit condition of
+   find, fields stamped by insert, what clear()/clear(key) write, the slot
+   tests of save, the stamping of load, index(), operator==, empty()).  A
+   source change that alters one of these facts changes the definition the
+   theorems below are about, and they stop checking. *)
+Theorem C04_generated_table_facts : gen_facts = std_facts.
+Proof. exact gen_is_std. Qed.
+Print Assumptions C04_generated_table_facts.
+
+Theorem C04_now_inv_fresh : forall bits, Inv (now_fresh bits).
+Proof. exact now_inv_fresh. Qed.
+Print Assumptions C04_now_inv_fresh.
+
+Theorem C04_now_inv_step : forall t o, Inv t -> Inv (now_step t o).
+Proof. exact now_inv_step. Qed.
+Print Assumptions C04_now_inv_step.
+
+Theorem C04_now_run_refines : forall ops t k, Inv t -> k <> key0 ->
+  now_find (now_run ops t) k = spec_run (tbits t) ops (now_find t) k.
+Proof. exact now_run_refines. Qed.
+Print Assumptions C04_now_run_refines.
+
+Theorem C04_now_find_sound : forall bits ops k v, k <> key0 ->
+  now_find (now_run ops (now_fresh bits)) k = v -> v <> [] ->
+  exists pre post, ops = pre ++ Insert k v :: post /\ forallb (untouched bits k) post = true.
+Proof. exact now_find_sound. Qed.
+Print Assumptions C04_now_find_sound.
+
+Theorem C04_now_find_complete : forall t pre post k v, Inv t -> k <> key0 ->
+  forallb (untouched (tbits t) k) post = true ->
+  now_find (now_run (pre ++ Insert k v :: post) t) k = v.
+Proof. exact now_find_complete. Qed.
+Print Assumptions C04_now_find_complete.
+
+Theorem C04_now_find_after_insert : forall t k v, now_find (now_insert t k v) k = v.
+Proof. exact now_find_after_insert. Qed.
+Print Assumptions C04_now_find_after_insert.
+
+Theorem C04_now_find_after_clear_one : forall t k k', k' <> key0 ->
+  same_slot (tbits t) k' k = true -> now_find (now_clear_one t k) k' = [].
+Proof. exact now_find_after_clear_one. Qed.
+Print Assumptions C04_now_find_after_clear_one.
+
+Theorem C04_now_save_load_fresh : forall t, Inv t ->
+  exists t', now_load (now_save t) (now_fresh (tbits t)) = (true, t') /\ Inv t' /\ tbits t' = tbits t /\
+             forall k, k <> key0 -> now_find t' k = now_find t k.
+Proof. exact now_save_load_fresh. Qed.
+Print Assumptions C04_now_save_load_fresh.
 
 (* ---- non-vacuity ---- *)
 (* a reachable state with a collision, a wrap of the seal, a clear-one and a
@@ -127,6 +215,17 @@ Example C04_nonvacuous_wrap :
   let t := insert (warp (fresh 2) 1) (1, 5) [7] in
   seal t = M32 - 1 /\ find t (1, 5) = [7] /\ seal (clear t) = 1 /\ find (clear (clear t)) (1, 5) = [].
 Proof. vm_compute. repeat split. Qed.
+
+(* a two-generation run with a shake in the second one, then a new session *)
+Example C04_nonvacuous_evolution :
+  let sig := fun x : N => (x + 1, 7) in
+  let eva := fun (d : N) (x : N) => [d * 10 + x] in
+  let evs := evolution_run N N 3 [(None, 3, [4; 5; 4]); (Some 2, 4, [5; 6])] ++ [QEval N N 5; QEval N N 3] in
+  qrun N N sig eva [TNum 4242; TNL] (fun s => match read_num s with Some (4242, r) => Some r | _ => None end)
+       (mkp N (fresh 7) 1) evs =
+  ([Some [13]; Some [14]; Some [15]; Some [14]; None; None; Some [24]; Some [25]; Some [26]; None;
+    Some [25]; Some [23]], true).
+Proof. vm_compute. reflexivity. Qed.
 
 (* the boundary of `k' <> key0`: clear(key) leaves a zeroed key, a live seal
    and the old fitness; the signature (slot index, 0) still finds nothing,
